@@ -56,15 +56,28 @@ fn record(msg: String) {
     })
 }
 
+/// Payload of the panic raised when user code is handed a dead object: the error is already
+/// recorded; unwinding gets the execution out of library loops that would otherwise spin on
+/// the corrupted structure (e.g. `while len > cap { remove_lru() }` with an unremovable entry).
+pub struct HazardAbort;
+
+fn abort_execution() {
+    if !std::thread::panicking() {
+        std::panic::panic_any(HazardAbort);
+    }
+}
+
 fn check_live(what: &str, s: u32) -> bool {
     match serial_state(s) {
         1 => true,
         2 => {
             record(format!("{} of an already dropped object (serial {})", what, s));
+            abort_execution();
             false
         }
         _ => {
             record(format!("{} of garbage memory (serial field {:#x})", what, s));
+            abort_execution();
             false
         }
     }
@@ -328,6 +341,7 @@ impl Borrow<str> for TK {
             self.name.as_str()
         } else {
             record(format!("borrow of a dead key (serial field {:#x})", self.serial));
+            abort_execution();
             "<dead>"
         }
     }
